@@ -75,7 +75,7 @@ def trace_check(ctx, label, data, o, names):
                       diffrun.witness(label, data, names))
     # the interpreter's own parameters (what the CLI passes for the k-th pickle of a stack) and a
     # partially stepped interpreter: traced == untraced with the same parameters / same starting point
-    if not o.fick_ok:
+    if not o.fick_ok or len(data) > 30000:       # (tracing copies the memo at every opcode: quadratic on big pickles)
         return
     for fv, rv, pre in ((7, "result3", 0), (0, "result", 2), (3, "out", 1)):
         try:
